@@ -286,6 +286,10 @@ def _instances():
         "Args": Args(("p",), ("a", "b"), "r", ("k",), "kw"), "Function": Function(Args(("p",)), "doc", "COROUTINE"),
         "CodeData": CodeData(blocks=(body, body), filename="f.py", first_line_number=3, name="nm", stacksize=2, type=Function(Args((), ("a",)), None, None), freevars=("fv",),
                              future_annotations=True, _nested=True, _additional_line=AdditionalLine(9, (0,)), _additional_args=(Name("an", 1), Constant((1, 2), 3))),
+        "CodeData(lone surrogates everywhere)": CodeData(blocks=((Instruction("LOAD_NAME", Name("n\ud800", 1)), Instruction("LOAD_FAST", Varname("\udfffv")), Instruction("LOAD_DEREF", Cellvar("c\ud800")),
+                                                                  Instruction("LOAD_DEREF", Freevar("f\ud800")), Instruction("LOAD_CONST", Constant(("\ud800", b"\xff")))),),
+                                                        filename="file\ud800.py", first_line_number=1, name="nm\ud800", stacksize=1, freevars=("f\ud800",),
+                                                        type=Function(Args(("p\ud800",), ("a\ud800",), "r\ud800", ("k\ud800",), "kw\ud800"), "doc \ud800 string")),
         "CodeData(nested)": CodeData(blocks=((Instruction("LOAD_CONST", Constant(CodeData(blocks=(body,), filename="f.py", first_line_number=1, name="inner", stacksize=1))),),),
                                      filename="f.py", first_line_number=1, name="outer", stacksize=1),
     }
@@ -336,5 +340,16 @@ def h_positions(ctx, cfg):
         except TypeError:
             hashable = False
         ctx.prove("loaded_value_is_hashable[%s]" % name, z3.BoolVal(hashable))
+    # the published schema accepts the document of every CodeData representative (independent jsonschema library)
+    try:
+        import jsonschema
+        validator = jsonschema.Draft7Validator(code_data.JSON_SCHEMA)
+    except Exception as e:
+        raise Unsupported("jsonschema unavailable: %s" % e)
+    for name, v in inst.items():
+        if isinstance(v, CodeData):
+            doc = json.loads(json.dumps(J.value_to_json(v), allow_nan=False))
+            errs = list(validator.iter_errors(doc))
+            ctx.prove("schema_valid[%s]" % name, z3.BoolVal(not errs), detail=errs[0].message[:200] if errs else None)
     # defaults are omitted
     ctx.prove("defaults_omitted", z3.BoolVal(J.value_to_json(Name("n")) == {"name": "n"} and J.value_to_json(Instruction("X")) == {"name": "X"}))
